@@ -36,6 +36,9 @@ func (h aggregatedBalancesResourceRepositoryHandler) BuildDataset(query common.R
 				ColumnExpr("first_value(post_commit_volumes) over (partition by (accounts_address, asset) order by seq desc) as volumes").
 				Where("insertion_date <= ?", query.PIT)
 		} else {
+			if !h.store.ledger.HasFeature(features.FeatureMovesHistory, "ON") {
+				return nil, NewErrMissingFeature(features.FeatureMovesHistory)
+			}
 			if !h.store.ledger.HasFeature(features.FeatureMovesHistoryPostCommitEffectiveVolumes, "SYNC") {
 				return nil, NewErrMissingFeature(features.FeatureMovesHistoryPostCommitEffectiveVolumes)
 			}
